@@ -337,6 +337,9 @@ class Repo:
         count = 0
         for rel, tree in self.trees.items():
             for call in [x for x in ast.walk(tree) if isinstance(x, ast.Call)]:
+                if _external_canonical(call):
+                    count += 1
+                    continue
                 if not call.keywords or any(k.arg is None for k in call.keywords) or any(isinstance(a, ast.Starred) for a in call.args):
                     continue
                 cands = candidates(call)
@@ -578,6 +581,67 @@ class Repo:
         return c[0], self.trees[c[0]]
 
 
+# library calls the package uses: (parameter names in order, number of leading parameters written positionally in the canonical form).
+# `np.append(arr=a, values=v)` and `np.append(a, v)` are one call; parameters beyond the canonical positional ones are keywords.
+EXTERNAL_SIGNATURES = {
+    "np.append": (["arr", "values", "axis"], 2), "np.delete": (["arr", "obj", "axis"], 2), "np.insert": (["arr", "obj", "values", "axis"], 3),
+    "np.zeros": (["shape", "dtype"], 1), "np.ones": (["shape", "dtype"], 1), "np.full": (["shape", "fill_value", "dtype"], 2),
+    "np.tile": (["A", "reps"], 2), "np.isclose": (["a", "b", "rtol", "atol", "equal_nan"], 2), "np.allclose": (["a", "b", "rtol", "atol", "equal_nan"], 2),
+    "np.clip": (["a", "a_min", "a_max"], 3), "np.array": (["object", "dtype"], 1), "np.asarray": (["a", "dtype"], 1),
+    "np.random.normal": (["loc", "scale", "size"], 2), "np.sum": (["a", "axis"], 1), "np.max": (["a", "axis"], 1), "np.min": (["a", "axis"], 1),
+    "np.mean": (["a", "axis"], 1), "np.abs": (["x"], 1), "np.maximum": (["x1", "x2"], 2), "np.minimum": (["x1", "x2"], 2),
+    "np.vstack": (["tup"], 1), "np.hstack": (["tup"], 1), "np.stack": (["arrays", "axis"], 1), "np.concatenate": (["arrays", "axis"], 1),
+    "np.where": (["condition", "x", "y"], 3), "np.floor": (["x"], 1), "np.ceil": (["x"], 1), "np.exp": (["x"], 1), "np.log": (["x"], 1),
+    "np.round": (["a", "decimals"], 2), "np.any": (["a", "axis"], 1), "np.all": (["a", "axis"], 1),
+    "pd.DataFrame": (["data", "index", "columns", "dtype", "copy"], 1), "pd.concat": (["objs", "axis"], 1), "pd.Series": (["data", "index", "dtype", "name"], 1),
+    "heapq.heappush": (["heap", "item"], 2), "heapq.heappop": (["heap"], 1), "heapq.heapify": (["x"], 1),
+    "json.dump": (["obj", "fp"], 2), "json.dumps": (["obj"], 1), "json.load": (["fp"], 1), "json.loads": (["s"], 1),
+    "copy.deepcopy": (["x", "memo"], 1), "deepcopy": (["x", "memo"], 1), "warnings.warn": (["message", "category", "stacklevel"], 2),
+    "timedelta": ([], 0), "round": (["number", "ndigits"], 2), "isinstance": (["obj", "class_or_tuple"], 2),
+    "getattr": (["object", "name", "default"], 3), "setattr": (["object", "name", "value"], 3), "enumerate": (["iterable", "start"], 1),
+}
+EXTERNAL_METHODS = {"fillna": (["value", "method", "axis"], 1), "astype": (["dtype"], 1), "reshape": (["shape"], 1),
+                    "strftime": (["format"], 1), "astimezone": (["tz"], 1), "localize": (["dt", "is_dst"], 1), "get": (["key", "default"], 2),
+                    "setdefault": (["key", "default"], 2), "pop": (["key", "default"], 2)}
+
+
+def _external_canonical(call):
+    """rewrite a call of a listed library function into its canonical positional / keyword split; True if something changed"""
+    d = dotted(call.func)
+    sig = None
+    if d is not None:
+        d2 = d.replace("numpy.", "np.").replace("pandas.", "pd.")
+        sig = EXTERNAL_SIGNATURES.get(d2)
+    if sig is None and isinstance(call.func, ast.Attribute) and call.func.attr in EXTERNAL_METHODS \
+            and not (isinstance(call.func.value, ast.Name) and call.func.value.id in ("np", "pd", "numpy", "pandas")):
+        sig = EXTERNAL_METHODS[call.func.attr]
+    if sig is None or not sig[0]:
+        return False
+    params, npos = sig
+    if any(isinstance(a, ast.Starred) for a in call.args) or any(k.arg is None for k in call.keywords) or len(call.args) > len(params):
+        return False
+    bound = dict(zip(params, call.args))
+    for k in call.keywords:
+        if k.arg in bound:
+            return False
+        bound[k.arg] = k.value
+    new_args, i = [], 0
+    while i < npos and i < len(params) and params[i] in bound:
+        new_args.append(bound.pop(params[i]))
+        i += 1
+    order = {p: j for j, p in enumerate(params)}
+    new_kw = [ast.keyword(arg=k, value=v) for k, v in sorted(bound.items(), key=lambda kv: order.get(kv[0], 99))]
+    same = len(new_args) == len(call.args) and [k.arg for k in call.keywords] == [k.arg for k in new_kw]
+    if same:
+        return False
+    # a positional argument that lands beyond the canonical positional prefix is only moved when every parameter before it is given
+    if len(new_args) < min(len(call.args), npos):
+        return False
+    call.args, call.keywords = new_args, new_kw
+    ast.fix_missing_locations(call)
+    return True
+
+
 def _inline_named_constants(trees):
     """Load-time normal form: a name that is bound exactly once to a closed literal - at module level (`_TOL = 1e-3`, also reached through
     `from .mod import _TOL`) or in a class body (`class C: TOL = 1e-3`, read as self.TOL / cls.TOL / C.TOL) - and never rebound (no other
@@ -805,7 +869,7 @@ def _inline_named_constants(trees):
                     if isinstance(v, SCALAR):
                         used[n.id] = repr(v)
                         return lit(v, n)
-                    if self.container_ok:
+                    if self.container_ok or isinstance(v, (tuple, frozenset)):       # immutable: the same value wherever it is read
                         used[n.id] = repr(v)[:60]
                         return ast.fix_missing_locations(ast.copy_location(_c.deepcopy(node), n))
                 return n
@@ -956,6 +1020,13 @@ def _split_tuple_assignments(tree):
                 test = conds[0] if len(conds) == 1 else ast.BoolOp(op=ast.And(), values=conds)
                 out.append(ast.copy_location(ast.If(test=test, body=[app], orelse=[]), n))
             return [ast.fix_missing_locations(o) for o in out]
+
+        def visit_AnnAssign(self, n):
+            # `x: T = v` is `x = v` (the annotation is not evaluated into anything the program reads); a bare `x: T` inside a function
+            # declares nothing at run time
+            if n.value is not None and isinstance(n.target, (ast.Name, ast.Attribute, ast.Subscript)):
+                return self.visit_Assign(ast.copy_location(ast.Assign(targets=[n.target], value=n.value, type_comment=None), n))
+            return self.generic_visit(n)
 
         def visit_Assign(self, n):
             n = self.generic_visit(n)
